@@ -157,6 +157,21 @@ def _step_direct(name, Hm, y, h, dtype, tol=1e-13):
     return (y.astype(dtype) + np.asarray(dY, dtype=dtype))
 
 
+def _round_trip_same_object(name, Hm, y, h, dtype, tol=1e-13):
+    """h then -h on ONE integrator object, the step handed over as a 0-d array (the type OdeSystem passes) that is negated in
+    place between the two calls; returns (state after the round trip, dT of the first call, dT of the second call)"""
+    from desolver import DiffRHS
+    integ = M.get(name)(sys_dim=(Hm.n,), dtype=dtype, rtol=tol, atol=tol)
+    rhs = DiffRHS(Hm.rhs)
+    hh = np.array(h, dtype=dtype)
+    y = y.astype(dtype)
+    _, (dT, dY) = integ(rhs, dtype(0.0), y, {}, hh)
+    dT, y1 = dtype(dT), (y + np.asarray(dY, dtype=dtype))
+    hh *= -1
+    _, (dT2, dY2) = integ(rhs, dtype(0.0) + dT, y1, {}, hh)
+    return y1 + np.asarray(dY2, dtype=dtype), float(dT), float(dT2)
+
+
 def _step_system(name, Hm, y, h, case):
     """one step through the public OdeSystem with the kick mask set through the public API; returns (y1, mask read back)"""
     import desolver as de
@@ -278,6 +293,13 @@ def check(case):
                 rtol = (1e-9 if implicit else 1e3 * float(np.finfo(dt).eps)) * (1 + float(np.max(np.abs(y0))) + float(np.max(np.abs(np.asarray(y1, dtype=np.float64)))))
                 if not err <= rtol:
                     viols.append(V("not_reversible", "{} ({}): a step of h = {} followed by a step of -h misses the start by {:.3e} (allowed {:.1e})".format(name, Hm.kind, h, err, rtol), sig, **attrs))
+                if not viols:
+                    back2, dTa, dTb = _round_trip_same_object(name, Hm, np.asarray(y0), h, dt)
+                    err2 = float(np.max(np.abs(np.asarray(back2, dtype=np.float64) - y0)))
+                    labels.append("round_trip_on_one_object_with_the_step_array_negated_in_place")
+                    if abs(dTa - h) <= 1e-12 * abs(h) and not (abs(dTb + h) <= 1e-12 * abs(h) and err2 <= rtol):
+                        viols.append(V("not_reversible", "{} ({}): on one integrator object, a step of h = {} and then a step with the same 0-d step array negated in place (dT = {!r}) misses the start by {:.3e} (allowed {:.1e})".format(
+                            name, Hm.kind, h, dTb, err2, rtol), sig + ":same_object", **attrs))
             return viols, dict(nontrivial=nontrivial, labels=labels, metrics={"defect/tol:nonlinear": defect / tol})
         else:
             from desolver import DiffRHS
